@@ -9,6 +9,7 @@ is inside the file.
 """
 
 import glob
+import re
 import io as pyio
 import os
 import signal
@@ -21,6 +22,7 @@ ID = "C15"
 LEVEL = "exploration"
 
 HORIZON = 120
+_CONSTANT_FOLDER_MSG = re.compile(r"Value after \*\*? must be an? |^TypeError: ")
 MENU = ["(", ")", ":", ",", "=", "*", "not", "await", "yield", "lambda", "[", "."]
 
 
@@ -72,12 +74,18 @@ def analyse(src, horizon=HORIZON):
       sig = "compile-error-line"
     out = "compile-error"
   else:
-    if any(e[0] == "python-compiler-error" for e in errs):
-      # e.g. `[*1, 2]`: CPython compiles it, pytype's constant folder reports it as a
-      # compiler error together with the default stub - "a stub plus an error report".
-      out0 = "compiler-error-on-compilable-text"
+    ce = [e for e in errs if e[0] == "python-compiler-error"]
+    if ce and not all(_CONSTANT_FOLDER_MSG.search(e[2]) for e in ce):
+      # CPython compiles the text, so a compiler error can only come from pytype's own handling of
+      # the source (e.g. its rewriting of annotations producing invalid syntax): an internal failure
+      # reported as the user's syntax error.  Only the constant folder's deliberate diagnostics of
+      # literals that always raise (`[*1]`, `{**1}`, `{[1]: 2}`) are "a stub plus an error report".
+      msg = ce[0][2].split("\n")[0][:120]
+      bad = "CPython compiles the text but pytype reports a python-compiler-error on line %s: %s" % (ce[0][1], msg)
+      sig = "compiler-error-on-compilable-text:" + re.sub(r"\d+", "N", msg)[:60]
+    if bad:
       pass
-    if not res.pyi:
+    elif not res.pyi:
       bad = "no stub produced"
       sig = "no-stub"
     else:
@@ -242,6 +250,8 @@ def run(rep, tier, seed):
   for aid, src in psexpr.annotations():
     if tier != "quick" or aid.startswith(("ann:mod/", "ann:fn/")):
       items.append(("annot", aid, src))
+  for sid, src in psexpr.signatures():
+    items.append(("signature", sid, src))
   sigs = {}
   for item, results in vrun.pmap(work, items, seed=seed, chunksize=1, progress=2000):
     for r in results:
@@ -265,7 +275,8 @@ def run(rep, tier, seed):
                   "corpus_files": sum(1 for i in items if i[0] == "corpus"), "work_items": len(items),
                   "psexpr_statements": n_expr, "psexpr_pack": PACK,
                   "psexpr_patterns": sum(1 for i in items if i[0] == "pattern"),
-                  "psexpr_annotated_statements": sum(1 for i in items if i[0] == "annot")})
+                  "psexpr_annotated_statements": sum(1 for i in items if i[0] == "annot"),
+                  "psexpr_annotated_signatures": sum(1 for i in items if i[0] == "signature")})
   rep.rule = ("every PS-full candidate of the tier (compilable or not), every 1-token deletion / menu insertion of the seed "
               "programs, stdlib files <= max_lines (thorough); non-trivial = sources that compile and were analysed by the VM; "
               "violations are keyed by failure signature (exception type @ raising site, or oracle clause) with the first witness")
